@@ -57,3 +57,18 @@ type GOne[T any] interface {
 type GLower[k any, v any] interface {
 	Do(a k) v
 }
+
+// Named has method names that exercise the naming rules: initialisms in
+// non-canonical case, and a lower-case method (mockable in the same package only).
+type Named interface {
+	Id(id string) string
+	Url() T1
+	lower(a T0) R0
+}
+
+// Logger has variadic tails without results: an empty-interface element type
+// (where a re-wrapped slice would still compile) and a named one.
+type Logger interface {
+	Logf(format string, args ...interface{})
+	Many(vs ...T0)
+}
